@@ -24,7 +24,11 @@ BUDGET = 2500
 
 
 def gen_files():
-    return {}
+    # Gen/Ops.v: the index arithmetic of _sequence_common_getitem_impl, translated from the current
+    # source by the C19 translator; C01_subscript_* are stated over it (composition with C19)
+    from translate import ops as tr_ops
+
+    return {"Ops.v": tr_ops.translate(str(lib.REPO))}
 
 
 def run_impl(payload, timeout=1500):
@@ -97,7 +101,13 @@ def run(tier: str, replay: str | None = None):
     known = {f["id"]: f for f in lib.load_known_findings(PROP)["findings"]}
 
     # 1. re-prove
-    proof = lib.prove(PROP, gen_files(), thorough=(tier == "thorough"))
+    broken_translation = None
+    try:
+        gen = gen_files()
+    except Exception as ex:  # fail-closed translator: the source no longer has the expected shape
+        broken_translation = f"{type(ex).__name__}: {ex}"
+        gen = None
+    proof = lib.prove(PROP, gen, thorough=(tier == "thorough"))
 
     # 2. cases: corpus first, then generated modules
     mods = []
@@ -215,6 +225,8 @@ def run(tier: str, replay: str | None = None):
     if api_mismatch and not found_input:
         rep.violation({"kind": "broken-correspondence", "correspondence": "NameCheckVisitor(annotate=True) vs ast_annotator.annotate_code", "input": {"module": api_mismatch[0][0], "node": api_mismatch[0][1]},
                        "observed": api_mismatch[0][2], "model": api_mismatch[0][3]}, no_failing_input=True)
+    if broken_translation and not found_input:
+        rep.violation({"kind": "broken-obligation", "theorem": "Gen/Ops.v (translator harness/translate/ops.py, shared with C19)", "detail": broken_translation}, no_failing_input=True)
     if proof is not None and not proof.ok and not found_input:
         rep.violation({"kind": "broken-obligation", "theorem": "; ".join(proof.broken), "log": proof.log[-1500:]}, no_failing_input=True)
 
